@@ -214,6 +214,7 @@ func (mgr *GCMgr) gc(bkt *Bucket, startChunkID, endChunkID int, merge bool) {
 
 	mgr.BeforeBucket(bkt, startChunkID, endChunkID, merge)
 	defer mgr.AfterBucket(bkt)
+	verifPoint("gc.begin")
 
 	gc.Dst = startChunkID
 	// try to find the nearest chunk that small than start chunk
@@ -243,6 +244,7 @@ func (mgr *GCMgr) gc(bkt *Bucket, startChunkID, endChunkID int, merge bool) {
 	defer func() {
 		dstchunk.endGCWriting()
 		bkt.hints.trydump(gc.Dst, true)
+		verifPoint("gc.end")
 	}()
 
 	for gc.Src = gc.Begin; gc.Src <= gc.End; gc.Src++ {
@@ -354,6 +356,7 @@ func (mgr *GCMgr) gc(bkt *Bucket, startChunkID, endChunkID int, merge bool) {
 
 		if gc.Src != gc.Dst {
 			bkt.datas.chunks[gc.Src].Clear()
+			verifPoint("gc.cleared")
 		}
 		if gc.Src+1 >= bkt.NextGCChunk {
 			bkt.NextGCChunk = gc.Src + 1
